@@ -509,9 +509,18 @@ def run_cw(case, root):
 def run_bbs(case):
     from pydrobert.torch.data import BucketBatchSampler
 
-    i2b = dict(enumerate(case["i2b"]))
-    b2s = dict(enumerate(case["b2s"]))
-    s = BucketBatchSampler(list(case["sampler"]), i2b, b2s, case["drop"])
+    # bucket ids are arbitrary sortable hashables: the j-th bucket may be labelled by a negative int, a string or a tuple
+    # (labels increase with j, so the flush order of the model - by bucket number - is the order of the labels)
+    lab = {None: lambda j: j, "neg": lambda j: j - 7, "str": lambda j: "b%02d" % j, "tuple": lambda j: (0, j)}[case.get("labels")]
+    i2b = {i: lab(b) for i, b in enumerate(case["i2b"])}
+    b2s = {lab(j): z for j, z in enumerate(case["b2s"])}
+    smp = tuple(case["sampler"]) if case.get("seqtype") == "tuple" else list(case["sampler"])
+    if case.get("call") == "kw":
+        s = BucketBatchSampler(sampler=smp, idx2bucket=i2b, bucket2size=b2s, drop_incomplete=case["drop"])
+    elif case.get("call") == "default" and not case["drop"]:
+        s = BucketBatchSampler(smp, i2b, b2s)
+    else:
+        s = BucketBatchSampler(smp, i2b, b2s, case["drop"])
     try:
         if case.get("peek") is not None:
             # history: an iterator abandoned after `peek` batches must not influence the next one
@@ -1017,7 +1026,9 @@ def gen_bbs(rng, big):
     elif r < 0.65 and n:  # a sub-sample (a distributed rank's share), or repeats
         sampler = [rng.randrange(n) for _ in range(rng.randint(0, n + 3))]
     return dict(kind="bbs", sampler=sampler, i2b=i2b, b2s=b2s, drop=rng.random() < 0.5,
-                peek=rng.choice([None, 0, 1, 2, 3, 4, 5]), inter=rng.random() < 0.3)
+                peek=rng.choice([None, 0, 1, 2, 3, 4, 5]), inter=rng.random() < 0.3,
+                labels=rng.choice([None, None, "neg", "str", "tuple"]), call=rng.choice(["pos", "kw", "default"]),
+                seqtype=rng.choice(["list", "tuple"]))
 
 
 def gen_collate(rng, big):
@@ -1267,7 +1278,7 @@ def _shrink_cands(case):
         c["refs"] = None
         yield c
     for key, dflt in (("decoys", None), ("entry", "path"), ("cls", "main"), ("seed_via", "arg"), ("dep_args", False), ("inter2", False),
-                      ("omit_defaults", False), ("layout", None), ("call", "pos"), ("seqtype", "list"), ("weird", False)):
+                      ("omit_defaults", False), ("layout", None), ("call", "pos"), ("seqtype", "list"), ("weird", False), ("labels", None)):
         if case.get(key, dflt) not in (dflt, [], None) or (key == "decoys" and case.get(key)):
             c = dict(case)
             c[key] = dflt
@@ -1313,7 +1324,12 @@ def run(chk, cases=None):
         "bbs = BucketBatchSampler on explicit maps; collate/lcollate/cwcollate/window = the public collate functions and "
         "extract_window on synthetic tensors. History: before the recorded pass an iterator of the same sampler/loader is "
         "abandoned after `peek` batches (epoch put back), and (`inter`) two iterators are advanced alternately; the model "
-        "starts every __iter__ from empty accumulators. Where model and code differ, where the code raises, and in the regions of "
+        "starts every __iter__ from empty accumulators; `inter2` does the same with two iterators of one loader, and a yielded batch "
+        "is only looked at after its iterator is exhausted. Variants drawn independently of the arithmetic: entry (path / shared data-set "
+        "object / separate data_params / data_params is params / positional call), deprecated wrapper classes, cw seed by params vs "
+        "argument and deprecated left/right/reverse arguments, own utterance names (prefixes of each other, separators) and decoy "
+        "utterances excluded by subset_ids or a missing companion file, memory layout / float64 / keyword call / tuple container for the "
+        "direct calls (inputs unchanged, dtype kept); every cw data set is compared frame by frame with extract_window. Where model and code differ, where the code raises, and in the regions of "
         "the recorded defects the Spec.v checkers judge the code's output. "
         "non-trivial = at least two buckets actually occur (loaders), two buckets among >=3 samples (bbs), two "
         "different lengths (collate), an edge actually replicated (window)")
@@ -1336,7 +1352,7 @@ def run(chk, cases=None):
         chk.count("kind=" + c["kind"])
         chk.count("outcome=" + ("ok" if "ok" in out else "raise:" + out["err"]))
         for key in ("nb", "bs", "dyn", "drop", "shuffle", "sort", "bf", "su", "sa", "tokens_only", "reverse", "has_alis", "has_ids", "peek", "inter",
-                    "inter2", "entry", "cls", "seed_via", "dep_args", "layout", "call", "seqtype", "weird", "omit_defaults"):
+                    "inter2", "entry", "cls", "seed_via", "dep_args", "layout", "call", "seqtype", "weird", "omit_defaults", "labels"):
             if key in c:
                 chk.count("%s.%s=%s" % (c["kind"], key, c[key]))
         if "lens" in c:
